@@ -2,6 +2,7 @@
 #![allow(clippy::too_many_arguments, clippy::needless_range_loop, clippy::type_complexity)]
 
 pub mod c18;
+pub mod c18b;
 
 use pzv_common::driver::{Ctx, install_panic_hook, read_replay};
 
@@ -15,10 +16,14 @@ fn main() {
     if args[0] == "replay" {
         let (prop, sub, case) = read_replay(&args[1]);
         let ctx = Ctx::from_args(&prop, &[]);
+        if sub == "binfhe_keys" {
+            std::process::exit(ctx.replay_case::<c18b::Case, _>(&sub, &case, c18b::test));
+        }
         std::process::exit(c18::replay(&ctx, &sub, &case));
     }
     let ctx = Ctx::from_args("C18", &args[1..]);
     c18::run(&ctx);
+    c18b::run(&ctx);
     let code = ctx.finish(c18::RULE, c18::ASSUMPTIONS, &[("truncated", 100), ("header_field", 100), ("receiver_larger", 50), ("receiver_smaller", 50), ("accepted_after_fault", 10)]);
     std::process::exit(code);
 }
